@@ -108,7 +108,7 @@ def random_cases(family, rng, count):
         span = xs[-1] - xs[0]
         if family == "repeat":
             a, b = rng.randint(1, 12), rng.randint(1, 4)
-            out.append({"fn": "repeat", "x": X, "y": Y, "r": a, "container": rng.choice(["array", "list"])})
+            out.append({"fn": "repeat", "x": X, "y": Y, "r": a, "container": rng.choice(["array", "list", "series"])})
             if rng.random() < 0.2:
                 out[-1]["r_kind"] = "np"
             if rng.random() < 0.4:
@@ -165,7 +165,7 @@ def random_cases(family, rng, count):
             c = [R(Fraction(rng.randint(-8, 8), 4)) for _ in range(3)]
             xs2, ys2 = rseries(rng, 2, 12, den=2)
             out.append({"fn": "trend", "x": [R(v) for v in xs2], "y": [R(v) for v in ys2], "c": c, "normalized": rng.random() < 0.5,
-                        "container": rng.choice(["array", "list"])})
+                        "container": rng.choice(["array", "list", "series"])})
             lo = Fraction(rng.randint(-20, 20), 4)
             hi = lo + Fraction(rng.randint(1, 40), 4)
             if len(set(ys)) > 1:
@@ -198,7 +198,7 @@ def random_cases(family, rng, count):
     # the same requests far from the origin of the time axis (epoch seconds, 2^40): an exact translation, see fnexec.xoff
     for k in out:
         if k["fn"] in ("truncate", "slice_value", "repeat", "interp") and rng.random() < 0.15 \
-                and k.get("container", "array") in ("array", "list") and "xcontainer" not in k and "qcontainer" not in k \
+                and k.get("container", "array") in ("array", "list", "series") and "xcontainer" not in k and "qcontainer" not in k \
                 and all(r[1] <= 256 for r in k["x"]):        # translated abscissae must stay exactly representable
             k["xoff"] = [rng.choice([-1, 1]), rng.choice([31, 40])]
     return out
